@@ -14,6 +14,11 @@ CHECKS = {
         note="Coq kernel + vm_compute; theorems closed under the global context; hand-written model of Circuit.add/_map_mode/_add_empty_mode/circuit_utils; wiring theorem missing (partial): correspondence + oracle carry it.",
         technique="Coq proof (fold invariants over the ancilla list) + model/implementation correspondence + independent wiring oracle",
         ref="6 C02"),
+    "C08": dict(
+        text="Coq theorems over the pool-of-objects model of the Circuit API: every call changes at most its target object (so the circuit passed to add, the operands of +, the source of copy are unchanged), a call that raises changes nothing, and over whole histories untargeted objects keep their state. Because a functional model cannot exhibit aliasing it does not write down, the deciding evidence for the real objects is the per-run correspondence: after EVERY call of random API histories (malformed calls, reused arguments, parents with ancillas, interleaved Simulator/Sampler/Analyzer/Reck/Display/converter/tomography calls) every live object is snapshotted and compared with its previous state and with the model.",
+        note="Coq kernel + vm_compute; theorems closed; hand-written model; unmodelled aliasing is guarded only by the snapshot comparison (differential test).",
+        technique="Coq proof (frame properties of the state machine) + per-call snapshot correspondence",
+        ref="6 C08"),
     "C17": dict(
         text="20 Coq theorems (closed, generic over any commutative ring) over the model of SimulationResult/SamplingResult: index coherence for all contents, mapping image/row conservation/composition/idempotence for every set-iteration order, refusal for amplitude results, exact sampling counts; tied to /repo by a correspondence run and an independent brute-force oracle.",
         note="Coq kernel + vm_compute; no axioms; hand-written model tied to the code by the correspondence run; plotting/printing not modelled.",
